@@ -2,7 +2,8 @@
 (* Replays recorded sequential histories of the real btree_delete_set (3 keys per node) on the structural spec BTreeSeq *)
 (* and compares the real tree's shape and the operation's result after every step.  A rejection is a MODEL-DRIFT (spec  *)
 (* and code disagree on the node layout), not a violation; the property verdict comes from SortedSetAbsTrace.           *)
-(* TraceData: <<[op |-> "reset"] | [op |-> "ins"/"del", key |-> k, res |-> 0/1, tree |-> nested shape]>>                *)
+(* TraceData: <<[op |-> "reset"] | [op |-> "ins"/"del", key |-> k, res |-> 0/1, chk |-> BOOLEAN, tree |-> nested shape]>> *)
+(* (the shape is recorded at every step with chk = TRUE only, to keep the data module small)                          *)
 EXTENDS BTreeSeq, TLC, TraceDataModule
 VARIABLE l
 tvars == <<tree, last, l>>
@@ -11,8 +12,8 @@ TNext == /\ l <= Len(TraceData)
          /\ l' = l + 1
          /\ LET e == TraceData[l]
             IN CASE e.op = "reset" -> tree' = Empty /\ last' = [op |-> "none", key |-> 0, res |-> 0]
-                 [] e.op = "ins"   -> Insert(e.key) /\ tree' = e.tree /\ last'.res = e.res
-                 [] e.op = "del"   -> Erase(e.key) /\ tree' = e.tree /\ last'.res = e.res
+                 [] e.op = "ins"   -> Insert(e.key) /\ (e.chk => tree' = e.tree) /\ last'.res = e.res
+                 [] e.op = "del"   -> Erase(e.key) /\ (e.chk => tree' = e.tree) /\ last'.res = e.res
 TSpec == TInit /\ [][TNext]_tvars
 Accepted == TLCGet("stats").diameter - 1 = Len(TraceData)
 =============================================================================
